@@ -250,6 +250,32 @@ class C14(object):
                 else:
                     x = rng.choice(targets)
                 items.append({'kind': 'unary', 'lang': lang, 'x': x, 'table': table, 'tag': 'unary'})
+        # pickled transport: for a share of the binary items the parent (hash seed 0) builds the Category objects and the
+        # seen-rule set and ships them as a pickle; the replicas (other hash seeds) must compute the same result as
+        # from the texts
+        import base64
+        import pickle
+        r4 = gen.stream(seed, 'C14:pickle', index)
+        twins = []
+        for i, it in enumerate(items):
+            if it['kind'] == 'binary' and r4.random() < 0.15:
+                seen = it.get('seen')
+                if seen is None:
+                    seen_obj = None
+                elif 'variant' in seen:
+                    seen_obj = grammars.seen_rule_set(seen['variant'])
+                    if r4.random() < 0.7:
+                        continue      # the full shipped set is a large pickle: only now and then
+                else:
+                    seen_obj = {(Category.parse(x).clear_features('X', 'nb'), Category.parse(y).clear_features('X', 'nb'))
+                                for x, y in seen['pairs']}
+                try:
+                    blob = base64.b64encode(pickle.dumps((Category.parse(it['x']), Category.parse(it['y']), seen_obj))).decode()
+                except Exception:
+                    continue
+                twins.append({'kind': 'binary', 'lang': it['lang'], 'x': it['x'], 'y': it['y'], 'seen': it.get('seen'),
+                              'tag': 'pickled_transport', 'pickled': blob, 'same_as': i})
+        items.extend(twins)
         orders = []
         for rep in range(n_rep):
             order = list(range(len(items))) * 2
@@ -428,6 +454,14 @@ class C14(object):
                         f'{it["lang"]} ({it["x"]}, {it["y"]}) with a seen set (pair {"in" if member else "not in"} the set): '
                         f'{_cats(res)}; unrestricted result {_cats(unrestricted[key])}', i, kind='seen')
                     return
+            if it.get('tag') == 'pickled_transport':
+                bump(stats, 'pickled_transport_checked')
+                bres = per[it['same_as']][0]['res']
+                if res != bres:
+                    vio('pickled_arguments_same_result',
+                        f'{it["lang"]} ({it["x"]}, {it["y"]}): with arguments built in another interpreter and shipped as a pickle '
+                        f'the result is {_cats(res)}, from the texts it is {_cats(bres)}', i, kind='pickle')
+                    return
             if it.get('tag') == 'nb_twin':
                 base = items[it['twin_of']]
                 bres = per[it['twin_of']][0]['res']
@@ -476,6 +510,12 @@ class C14(object):
         remap = {old: new for new, old in enumerate(keep)}
         cand['items'] = [copy.deepcopy(spec['items'][i]) for i in keep]
         for it in cand['items']:
+            if 'same_as' in it:
+                if it['same_as'] in remap:
+                    it['same_as'] = remap[it['same_as']]
+                else:
+                    it['tag'] = 'pair'
+                    it.pop('same_as')
             if 'twin_of' in it:
                 if it['twin_of'] in remap:
                     it['twin_of'] = remap[it['twin_of']]
